@@ -31,7 +31,7 @@ class ResWorld(World):
     name = "W-res"
 
     def __init__(self, variant: str = "full", low_energy: bool = True, pairs: bool = True, prices: bool = False,
-                 mechs=("quiet", "small", "quiet"), idle_timeout: int = 120, gas: bool = False, name: str = "", atomic_pairs: bool = False, v0_energy=None, split_base: bool = False, throttle: float = 1.0, slots: int = 1):
+                 mechs=("quiet", "small", "quiet"), idle_timeout: int = 120, gas: bool = False, name: str = "", atomic_pairs: bool = False, v0_energy=None, split_base: bool = False, throttle: float = 1.0, slots: int = 1, twin_base: bool = False):
         super().__init__()
         self.pairs = pairs
         if name:
@@ -43,9 +43,9 @@ class ResWorld(World):
         rn = HaversineRoadNetwork(sim_h3_resolution=15)
         self.rn = rn
         env = self.env
-        s0 = mk_station(env, rn, "s0", S["N1"], {"DCFC": slots, "LEVEL_2": 1, "GAS_PUMP": 1} if gas else {"DCFC": slots, "LEVEL_2": 1})
+        s0 = mk_station(env, rn, "s0", S["N1"], {"DCFC": slots, "LEVEL_2": 1, "GAS_PUMP": 1} if gas else {"DCFC": slots, "LEVEL_2": 1}, one_row_per_plug=slots > 1)
         s1 = mk_station(env, rn, "s1", S["F1"], {"DCFC": 1})
-        bs = mk_station(env, rn, "bs", S["X1"], {"LEVEL_2": slots})
+        bs = mk_station(env, rn, "bs", S["X1"], {"LEVEL_2": slots}, one_row_per_plug=slots > 1)
         # slots > 1: resources shared by several holders at once (a second release is not stopped by the count guard)
         b0 = mk_base(rn, "b0", S["X1"], stalls=slots, station_id="bs")
         # split_base: base b1 (on M1) is served by station s0, which stands on another cell (N1) -- the input files allow it
@@ -65,7 +65,14 @@ class ResWorld(World):
 
             _, s0 = s0.update_prices(immutables.Map({"DCFC": 0.2113, "LEVEL_2": 0.0917, "GAS_PUMP": 3.079}))
             _, bs = bs.update_prices(immutables.Map({"LEVEL_2": 0.0531}))
-        sim = build_sim(env, rn, vehicles=(v0, v1, v2), stations=(s0, s1, bs), bases=(b0, b1))
+        stations, bases = [s0, s1, bs], [b0, b1]
+        if twin_base:
+            # a second base on the SAME cell as b1 (a charging bay next to a parking lot without plugs), with a plug of its own;
+            # a vehicle parked at b1 has a silent driver (nothing to charge at there), so a controller's cross-base instruction
+            # takes effect
+            stations.append(mk_station(env, rn, "bs2", S["M1"], {"LEVEL_2": 1}))
+            bases.append(mk_base(rn, "b2", S["M1"], stalls=1, station_id="bs2"))
+        sim = build_sim(env, rn, vehicles=(v0, v1, v2), stations=tuple(stations), bases=tuple(bases))
         self.starts = {"init": sim}
         self.request_specs = {"r0": {"origin": S["N2"], "destination": S["M2"]}}
         from nrel.hive.model.request import RequestRateStructure
@@ -76,6 +83,8 @@ class ResWorld(World):
                 "p1": {"station_id": "s0", "charger_id": "DCFC", "price_kwh": "0.291"},
                 "p2": {"station_id": "bs", "charger_id": "LEVEL_2", "price_kwh": "0.137"},
                 "p3": {"station_id": "s0", "charger_id": "LEVEL_2", "price_kwh": "0.173"},  # same station as p1, other plug
+                "p4": {"station_id": "s0", "charger_id": "DCFC", "price_kwh": "0.0"},  # a plug that had a price becomes free of charge
+                "p5": {"station_id": "bs", "charger_id": "LEVEL_2", "price_kwh": "-0.041"},  # negative tariff (surplus power)
             }
         if prices:
             # the grid side halves a plug's power at run time, at most once each
@@ -100,6 +109,8 @@ class ResWorld(World):
             per_vehicle += [("DispatchStation", "s0", "GAS_PUMP"), ("ChargeStation", "s0", "GAS_PUMP")]
         if split_base:
             per_vehicle += [("ChargeBase", "b1", "DCFC"), ("ReserveBase", "b1")]
+        if twin_base:
+            per_vehicle += [("ChargeBase", "b2", "LEVEL_2"), ("ReserveBase", "b2"), ("DispatchBase", "b2")]
         if variant == "full":
             per_vehicle += [
                 ("DispatchStation", "s0", "LEVEL_1"),  # plug type not installed
